@@ -465,6 +465,8 @@ class FileOutput:
 
 
 class Value:
+    info = ""
+
     def __init__(self):
         self.info = ""
 
